@@ -2,7 +2,8 @@
   C11 — invalid build graphs are rejected before anything runs; valid ones are accepted.
   Property theorems only. Model: GrogModel/Analysis.lean, GrogModel/Paths.lean.
   Specification (`Spec.valid`, the property's list of defects): GrogModel/Lemmas/AnalysisSpec.lean.
-  Helper lemmas: GrogModel/Lemmas/{AnalysisGraph,Paths,AnalysisSpec,AnalysisCache,AnalysisConstraints,AnalysisOrder}.lean.
+  Helper lemmas: GrogModel/Lemmas/{AnalysisGraph,AnalysisCycle,Paths,AnalysisSpec,AnalysisCache,AnalysisConstraints,
+  AnalysisOrder}.lean.
 
   `analyze ws ps` is what `grog build` / `grog check` decide about the packages `ps` in the workspace
   with root `ws` before anything is executed.
@@ -13,13 +14,12 @@ open Grog Grog.Paths Grog.Analysis Grog.Analysis.Spec
 
 /-! ### pieces -/
 
-/-- a reported cycle is a real cycle (of the graph handed to `FindCycle`) -/
-theorem findCycle_sound (V : List Label) (succ : Label → List Label) (hV : ∀ u v, v ∈ succ u → v ∈ V)
-    (c : List Label) (h : findCycleG V succ = .cycle c) : ∃ x, TPath (stepOf succ) x x := by
-  have := findCycleG_spec V succ hV
-  rw [h] at this
-  simp only [Acyclic] at this
-  exact Classical.byContradiction fun hn => this fun v hv => hn ⟨v, hv⟩
+/-- a reported cycle is a real cycle of the graph handed to `FindCycle`: the reported list starts and ends
+    in the same vertex and its consecutive entries are edges; in particular some vertex reaches itself -/
+theorem findCycle_sound (V : List Label) (succ : Label → List Label)
+    (c : List Label) (h : findCycleG V succ = .cycle c) :
+    ClosedWalk succ c ∧ ∃ x, TPath (stepOf succ) x x :=
+  ⟨findCycleG_closedWalk succ V c h, (findCycleG_closedWalk succ V c h).tpath⟩
 
 /-- no report ⇒ the graph is acyclic; and the depth bound of the search is never hit -/
 theorem findCycle_complete (V : List Label) (succ : Label → List Label) (hV : ∀ u v, v ∈ succ u → v ∈ V) :
